@@ -101,6 +101,42 @@ Theorem C02_read_after_any_history :
 Proof. exact read_after_history. Qed.
 Print Assumptions C02_read_after_any_history.
 
+(* passthrough_exact (generic form): GetPassthroughFd - chunk enumeration, path choice (sequential when a chunk is larger than
+   or crosses a merge buffer, when there is no worker or no merge buffer; else the batched merge with checkHoles), for ANY
+   merge buffer size and worker count (also <= 0), any lookup meeting the contract and returning equal-or-disjoint chunks, any
+   honest cache and underlying reader: the file handed out holds exactly the file content; the merged entry is cached, honest. *)
+Theorem C02_passthrough_exact_generic :
+  forall (id : nat) (lookup : Z -> option chunk) (under : cache -> chunk -> option (bytes * cache))
+         (data : bytes) (Hon : cache -> Prop),
+    LookupSpec lookup (zlen data) -> LookupDisjoint lookup ->
+    (forall c o s v, Hon c -> c (id, o, s) = Some v -> v = slice o s data) ->
+    (forall c o s, Hon c -> Hon (cadd c (id, o, s) (slice o s data))) ->
+    (forall c ch, Hon c -> 0 <= c_off ch -> 0 <= c_size ch -> c_off ch + c_size ch <= zlen data ->
+        exists c', under c ch = Some (slice (c_off ch) (c_size ch) data, c') /\ Hon c') ->
+    forall fuel c mbs workers, zlen data < Z.of_nat fuel -> Hon c ->
+      exists c', pt_fd id lookup under fuel c mbs workers = (ROk data, c') /\ Hon c' /\ c' (id, 0, zlen data) = Some data.
+Proof. exact pt_fd_exact. Qed.
+Print Assumptions C02_passthrough_exact_generic.
+
+(* passthrough_exact: for every layer with tiling tables (either metadata store), every file, every honest cache state,
+   every merge buffer size and worker count *)
+Theorem C02_passthrough_exact :
+  forall L i c mbs workers, LayerOK L -> Honest L c ->
+    exists c', pt_file L i c mbs workers = (ROk (f_data (file_at L i)), c') /\ Honest L c'
+               /\ c' (i, 0, zlen (f_data (file_at L i))) = Some (f_data (file_at L i)).
+Proof. exact pt_file_exact. Qed.
+Print Assumptions C02_passthrough_exact.
+
+(* ... and a repeat (any parameters), after any history of reads, merges, prefetches, evictions and honest interference
+   in between, hands out the same bytes *)
+Theorem C02_passthrough_repeat :
+  forall L i c mbs workers os mbs' workers', LayerOK L -> Honest L c -> Forall (op_ok L) os ->
+    fst (pt_file L i c mbs workers) = ROk (f_data (file_at L i))
+    /\ fst (pt_file L i (fold_left (fun c o => fst (step L c o)) os (snd (pt_file L i c mbs workers))) mbs' workers')
+       = ROk (f_data (file_at L i)).
+Proof. exact pt_file_repeat. Qed.
+Print Assumptions C02_passthrough_repeat.
+
 (* the hypotheses are met by every layer the writer produces (any contents, any chunk size > 0, any member grouping),
    as indexed by EITHER metadata store (memory: initFields tables; db: initNodes + readChunks tables), and by the cold cache *)
 Theorem C02_writer_layers_ok :
@@ -225,6 +261,18 @@ Example C02_nonvacuous_db :
   /\ map (option_map fst) (snd (run exLdb cempty [Read 0 2 7; Read 0 9 5; Read 1 0 4]))
      = [Some (ROk [3; 4; 5; 6; 7; 8; 9]%N); Some (ROk [10]%N); Some (ROk [])].
 Proof. split; [exact (layer_of_writer_ok true 4 _ ltac:(reflexivity))|]. vm_compute. repeat split. Qed.
+
+(* passthrough: batched path (buffer 8: chunks 0-4,4-8 | 8-10), sequential paths (buffer 6: a chunk crosses; buffer 3: a chunk is
+   larger; no worker; no buffer), an empty file; and what the batched merge alone does without a worker (the defect F79 that
+   the path choice now excludes): zeros that pass the hole check *)
+Example C02_nonvacuous_passthrough :
+  map (fun p => fst (pt_file exL 0 cempty (fst p) (snd p))) [(8, 2); (6, 2); (3, 1); (8, 0); (0, 3); (-5, 1)]
+  = repeat (ROk [1; 2; 3; 4; 5; 6; 7; 8; 9; 10]%N) 6
+  /\ fst (pt_file exL 1 cempty 0 3) = ROk []
+  /\ fst (pt_file exLdb 0 cempty 4 1) = ROk [1; 2; 3; 4; 5; 6; 7; 8; 9; 10]%N
+  /\ fst (pt_batches 0%nat (under_layer exL 0) 2 0 (t_chunks (f_table (file_at exL 0))) 10 8 0 cempty [])
+     = ROk (repeat 0%N 10).
+Proof. vm_compute. repeat split. Qed.
 
 Example C02_nonvacuous_table :
   mk_table 10 4 = mkTable (mkChunk 0 4) [mkChunk 0 4; mkChunk 4 4; mkChunk 8 2]
